@@ -1,5 +1,6 @@
 import Esp.Spec.Wire
 import Esp.Lemmas.Varint
+import Esp.Lemmas.Bits
 /-!
 # C02 — everything the client writes conforms to the documented wire format
 
@@ -64,20 +65,6 @@ theorem c02_varints_minimal (p : Packet) :
   ⟨encodeVarint_minimal _, encodeVarint_minimal _⟩
 
 /-! ## noise -/
-
-theorem and_FF (x : Nat) : x &&& 0xFF = x % 256 := by
-  have := Nat.and_two_pow_sub_one_eq_mod x 8; simpa using this
-
-theorem hi8_toNat (x : Nat) : (hi8 x).toNat = (x / 256) % 256 := by
-  simp only [hi8, and_FF, Nat.shiftRight_eq_div_pow]
-  rw [toNat_ofNat_lt _ (Nat.mod_lt _ (by omega))]
-
-theorem lo8_toNat (x : Nat) : (lo8 x).toNat = x % 256 := by
-  simp only [lo8, and_FF]
-  rw [toNat_ofNat_lt _ (Nat.mod_lt _ (by omega))]
-
-theorem be16_split (x : Nat) (h : x < 65536) : (hi8 x).toNat * 256 + (lo8 x).toNat = x := by
-  rw [hi8_toNat, lo8_toNat]; omega
 
 /-- the format can carry the packet: 16-bit type, and the sealed frame fits a 16-bit length -/
 def InRange (p : Packet) : Prop := p.1 < 65536 ∧ p.2.length + 20 < 65536
